@@ -68,7 +68,7 @@ func indexDerived(p *pw.Path, v *pw.Val, depth int) bool {
 	}
 	switch v.Kind {
 	case pw.KField:
-		if v.Field != nil && (v.Field.Name() == "labeledKeysByName" || v.Field.Name() == "deleters") {
+		if v.Field != nil && (fname(v.Field) == "labeledKeysByName" || fname(v.Field) == "deleters") {
 			return true
 		}
 	case pw.KMapVal:
@@ -106,7 +106,7 @@ func (c *Ctx) c15Guarded() {
 	muPath := func(e *pw.Engine) string {
 		for obj, v := range e.Params {
 			if namedTypeName(obj.Type()) == "InvalidationIndex" {
-				return fmt.Sprintf("$%d.mu", v.ID)
+				return fmt.Sprintf("$%d.%s", v.ID, actualField("InvalidationIndex", "mu"))
 			}
 		}
 		return ""
@@ -127,7 +127,7 @@ func (c *Ctx) c15Guarded() {
 				for i, ev := range evs {
 					switch ev.Kind {
 					case pw.EvMapLookup, pw.EvMapInsert, pw.EvMapDelete, pw.EvMapIter, pw.EvMapLen:
-						if !indexDerived(p, ev.Recv, 0) && !(ev.Recv != nil && ev.Recv.Kind == pw.KField && ev.Recv.Field != nil && (ev.Recv.Field.Name() == "labeledKeysByName" || ev.Recv.Field.Name() == "deleters")) {
+						if !indexDerived(p, ev.Recv, 0) && !(ev.Recv != nil && ev.Recv.Kind == pw.KField && ev.Recv.Field != nil && (fname(ev.Recv.Field) == "labeledKeysByName" || fname(ev.Recv.Field) == "deleters")) {
 							continue
 						}
 						n++
@@ -669,7 +669,7 @@ func (c *Ctx) c15Protocol() {
 			if ev.Frame != nil && ev.Frame.Deferred && ev.Kind == pw.EvMapInsert && ev.Recv != nil && ev.Recv.Kind == pw.KParam {
 				held := false
 				for k, v := range ls[i] {
-					if v > 0 && strings.HasSuffix(k, ".mu") {
+					if v > 0 && strings.HasSuffix(k, "."+actualField("InvalidationIndex", "mu")) {
 						held = true
 					}
 				}
@@ -710,10 +710,10 @@ func (c *Ctx) c15Labelling() {
 			var look *pw.Event
 			var install *pw.Event
 			for _, ev := range p.Events {
-				if ev.Kind == pw.EvMapLookup && ev.Recv != nil && ev.Recv.Kind == pw.KField && ev.Recv.Field != nil && ev.Recv.Field.Name() == "labeledKeysByName" && look == nil {
+				if ev.Kind == pw.EvMapLookup && ev.Recv != nil && ev.Recv.Kind == pw.KField && ev.Recv.Field != nil && fname(ev.Recv.Field) == "labeledKeysByName" && look == nil {
 					look = ev
 				}
-				if ev.Kind == pw.EvMapInsert && ev.Recv != nil && ev.Recv.Kind == pw.KField && ev.Recv.Field != nil && ev.Recv.Field.Name() == "labeledKeysByName" {
+				if ev.Kind == pw.EvMapInsert && ev.Recv != nil && ev.Recv.Kind == pw.KField && ev.Recv.Field != nil && fname(ev.Recv.Field) == "labeledKeysByName" {
 					install = ev
 				}
 			}
@@ -770,7 +770,7 @@ func (c *Ctx) c15Labelling() {
 	// InvalidateByLabels: snapshot and per-name invalidation
 	name := "InvalidationIndex.InvalidateByLabels"
 	_, paths, _, err := c.runFunc(name, pw.Policy{Inline: func(fn *types.Func, d int) bool {
-		return inlineUnexported(fn, d) && fn.Name() != "invalidateByLabels"
+		return inlineUnexported(fn, d) && !strings.HasSuffix(pw.FuncName(fn), ".invalidateByLabels")
 	}, Pure: func(fn *types.Func) bool { return false }})
 	if err != nil {
 		r.Unknown("R15.6", name, err.Error())
@@ -786,7 +786,7 @@ func (c *Ctx) c15Labelling() {
 				for _, el := range ev.Value.Elems {
 					if el != nil && el.Kind == pw.KAlloc && el.Fields != nil {
 						for _, fv := range el.Fields {
-							if fv != nil && fv.Kind == pw.KMapVal && fv.Ev != nil && fv.Ev.Recv != nil && fv.Ev.Recv.Field != nil && fv.Ev.Recv.Field.Name() == "deleters" {
+							if fv != nil && fv.Kind == pw.KMapVal && fv.Ev != nil && fv.Ev.Recv != nil && fv.Ev.Recv.Field != nil && fname(fv.Ev.Recv.Field) == "deleters" {
 								recordFormAny = true
 							}
 						}
@@ -802,12 +802,12 @@ func (c *Ctx) c15Labelling() {
 			if !g.inner {
 				continue
 			}
-			isSnap := g.begin.Recv != nil && g.begin.Recv.Kind == pw.KField && g.begin.Recv.Field != nil && g.begin.Recv.Field.Name() == "labeledKeysByName"
+			isSnap := g.begin.Recv != nil && g.begin.Recv.Kind == pw.KField && g.begin.Recv.Field != nil && fname(g.begin.Recv.Field) == "labeledKeysByName"
 			if isSnap {
 				nSnap++
 				okI, okD := false, false
 				isDeletersOf := func(v, key *pw.Val) bool {
-					return v != nil && v.Kind == pw.KMapVal && v.Ev != nil && v.Ev.Recv != nil && v.Ev.Recv.Field != nil && v.Ev.Recv.Field.Name() == "deleters" && (key == nil || v.Ev.Key == key || v.Ev.Key != nil && v.Ev.Key.Kind == pw.KRangeKey)
+					return v != nil && v.Kind == pw.KMapVal && v.Ev != nil && v.Ev.Recv != nil && v.Ev.Recv.Field != nil && fname(v.Ev.Recv.Field) == "deleters" && (key == nil || v.Ev.Key == key || v.Ev.Key != nil && v.Ev.Key.Kind == pw.KRangeKey)
 				}
 				for _, ev := range g.events {
 					// record form: one struct per name holding the name's label map and deleters, appended to a local list
@@ -836,7 +836,7 @@ func (c *Ctx) c15Labelling() {
 					if ev.Value != nil && ev.Value.Kind == pw.KRangeVal {
 						okI, snapIdx = true, ev.Recv
 					}
-					if ev.Value != nil && ev.Value.Kind == pw.KMapVal && ev.Value.Ev != nil && ev.Value.Ev.Recv != nil && ev.Value.Ev.Recv.Field != nil && ev.Value.Ev.Recv.Field.Name() == "deleters" && ev.Value.Ev.Key == ev.Key {
+					if ev.Value != nil && ev.Value.Kind == pw.KMapVal && ev.Value.Ev != nil && ev.Value.Ev.Recv != nil && ev.Value.Ev.Recv.Field != nil && fname(ev.Value.Ev.Recv.Field) == "deleters" && ev.Value.Ev.Key == ev.Key {
 						okD, snapDel = true, ev.Recv
 					}
 				}
